@@ -1,7 +1,841 @@
+// Package c37: the Kademlia routing table of p2pserver/dht/kbucket.
+//
+// The parent process only generates histories (NewRoutingTable(size, local) followed by Update /
+// Remove / NearestPeers calls over a pool of peer ids: random, adversarially close to the local
+// id, clustered deep, churned).  The implementation is always executed in a child process (the
+// same binary, `run -replay <job file>`) under a timeout and a reduced stack limit, because the
+// bucket unfolding is a recursion: a call that does not return kills the child, and the history it
+// was executing is the failing input.  The child runs the property oracle on the real table after
+// every call (independent prefix-length / XOR code) and records what the correspondence compares:
+// every call's result, the PeerAdded / PeerRemoved callbacks and the final rt.Buckets.
 package c37
 
-import "verif/harness/hx"
+import (
+	"bufio"
+	"bytes"
+	"context"
+	"encoding/json"
+	"fmt"
+	"math/big"
+	"os"
+	"os/exec"
+	"path/filepath"
+	"runtime/debug"
+	"strings"
+	"time"
+
+	ocommon "github.com/ontio/ontology/common"
+	"github.com/ontio/ontology/p2pserver/common"
+	kb "github.com/ontio/ontology/p2pserver/dht/kbucket"
+
+	"verif/harness/hx"
+)
 
 func init() { hx.Register("C37", Run) }
 
-func Run(c *hx.Ctx) {}
+const idLen = 20
+
+// ---------- inputs ----------
+
+type hop struct {
+	K string `json:"k"`           // "u" update, "r" remove, "n" nearest
+	I int    `json:"i"`           // pool index
+	A uint64 `json:"a,omitempty"` // address number (update)
+	C int64  `json:"c,omitempty"` // count (nearest)
+}
+
+type history struct {
+	Kind  string   `json:"kind"`
+	Size  int64    `json:"size"`
+	Local string   `json:"local"`
+	Pool  []string `json:"pool"`
+	Ops   []hop    `json:"ops"`
+}
+
+type idCase struct {
+	T string `json:"t"`
+	A string `json:"a"`
+	B string `json:"b"`
+}
+
+// job is what the parent hands to the child through the replay-file mechanism.
+type job struct {
+	Histories []history `json:"histories,omitempty"`
+	Ids       []idCase  `json:"ids,omitempty"`
+	ChildOut  string    `json:"child_out,omitempty"`
+	MaxStack  int       `json:"max_stack,omitempty"`
+	// a replay file written by ./check holds one history (or id case) directly
+	history
+	idCase
+}
+
+// ---------- observations (child -> parent) ----------
+
+type pent struct {
+	I int    `json:"i"`
+	A uint64 `json:"a"`
+}
+
+type ores struct {
+	K   string `json:"k"` // "moved" "added" "rejected" | "removed" "absent" | "near" | "panic"
+	Out []pent `json:"out,omitempty"`
+	Msg string `json:"msg,omitempty"`
+}
+
+type ofail struct {
+	Class  string      `json:"class"`
+	Clause string      `json:"clause"`
+	At     int         `json:"at"` // index of the call after which it was seen
+	Got    interface{} `json:"got"`
+	Want   interface{} `json:"want"`
+}
+
+type hobs struct {
+	Idx      int      `json:"idx"`
+	Begin    bool     `json:"begin,omitempty"`
+	Res      []ores   `json:"res,omitempty"`
+	Final    [][]pent `json:"final,omitempty"`
+	Fails    []ofail  `json:"fails,omitempty"`
+	NBuckets int      `json:"nbuckets,omitempty"`
+	MaxDepth int      `json:"maxdepth,omitempty"` // most buckets created by one Update
+}
+
+type idobs struct {
+	IdIdx  int     `json:"ididx"`
+	Cpl    int     `json:"cpl"`
+	Dist   string  `json:"dist"`
+	Closer bool    `json:"closer"`
+	Fails  []ofail `json:"fails,omitempty"`
+}
+
+// ---------- implementation side (child) ----------
+
+func mkID(b []byte) common.PeerId {
+	var p common.PeerId
+	if err := p.Deserialization(ocommon.NewZeroCopySource(b)); err != nil {
+		panic(err)
+	}
+	return p
+}
+
+// independent reference functions for the oracle
+func refCPL(a, b []byte) int {
+	n := 0
+	for i := 0; i < len(a) && i < len(b); i++ {
+		for bit := 7; bit >= 0; bit-- {
+			if (a[i]>>uint(bit))&1 != (b[i]>>uint(bit))&1 {
+				return n
+			}
+			n++
+		}
+	}
+	return n
+}
+
+func refDist(a, b []byte) *big.Int {
+	x := new(big.Int).SetBytes(a)
+	return x.Xor(x, new(big.Int).SetBytes(b))
+}
+
+func addrStr(a uint64) string { return fmt.Sprintf("a%d", a) }
+
+func addrNum(s string) uint64 {
+	var a uint64
+	if _, err := fmt.Sscanf(s, "a%d", &a); err != nil {
+		return ^uint64(0)
+	}
+	return a
+}
+
+type tableView struct {
+	buckets [][]common.PeerIDAddressPair
+}
+
+func view(rt *kb.RouteTable) tableView {
+	var v tableView
+	for _, b := range rt.Buckets {
+		v.buckets = append(v.buckets, b.Peers())
+	}
+	return v
+}
+
+// checkTable is the structural part of the property, evaluated on the real table.
+func checkTable(h *history, v tableView, raw map[common.PeerId][]byte, local []byte, at int, fails *[]ofail) {
+	add := func(class, clause string, got, want interface{}) {
+		if len(*fails) < 6 {
+			*fails = append(*fails, ofail{class, clause, at, got, want})
+		}
+	}
+	seen := map[common.PeerId]int{}
+	last := len(v.buckets) - 1
+	if last < 0 {
+		add("structure:no-buckets", "the table has no bucket", 0, ">= 1")
+		return
+	}
+	for i, b := range v.buckets {
+		if int64(len(b)) > h.Size {
+			add("structure:bucket-overflow", "a bucket holds more peers than the bucket size",
+				map[string]interface{}{"bucket": i, "len": len(b)}, fmt.Sprintf("<= %d", h.Size))
+		}
+		for _, p := range b {
+			if j, dup := seen[p.ID]; dup {
+				add("structure:duplicate-peer", "a peer appears more than once in the table",
+					map[string]interface{}{"peer": p.ID.ToHexString(), "buckets": []int{j, i}}, "at most once")
+			}
+			seen[p.ID] = i
+			rb, ok := raw[p.ID]
+			if !ok {
+				add("structure:unknown-peer", "the table holds a peer that was never inserted", p.ID.ToHexString(), "a peer of the history")
+				continue
+			}
+			c := refCPL(rb, local)
+			if !(c == i || (i == last && c >= i)) {
+				add("structure:misplaced-peer", "a peer is not in the bucket of its common prefix length (nor in the last bucket with a longer prefix)",
+					map[string]interface{}{"peer": hx.Hex(rb), "cpl": c, "bucket": i, "last_bucket": last}, "bucket == cpl, or bucket == last <= cpl")
+			}
+		}
+	}
+}
+
+func total(v tableView) int {
+	n := 0
+	for _, b := range v.buckets {
+		n += len(b)
+	}
+	return n
+}
+
+func checkNearest(out []common.PeerIDAddressPair, target []byte, count int64, v tableView, raw map[common.PeerId][]byte, at int, fails *[]ofail) {
+	add := func(class, clause string, got, want interface{}) {
+		if len(*fails) < 6 {
+			*fails = append(*fails, ofail{class, clause, at, got, want})
+		}
+	}
+	in := map[common.PeerId]bool{}
+	for _, b := range v.buckets {
+		for _, p := range b {
+			in[p.ID] = true
+		}
+	}
+	seen := map[common.PeerId]bool{}
+	var prev *big.Int
+	for k, p := range out {
+		if seen[p.ID] {
+			add("nearest:duplicate", "NearestPeers returned a peer twice", p.ID.ToHexString(), "distinct peers")
+		}
+		seen[p.ID] = true
+		if !in[p.ID] {
+			add("nearest:not-in-table", "NearestPeers returned a peer that is not in the table", p.ID.ToHexString(), "peers of the table")
+			continue
+		}
+		d := refDist(raw[p.ID], target)
+		if prev != nil && prev.Cmp(d) > 0 {
+			add("nearest:unsorted", "NearestPeers result is not sorted by XOR distance to the target",
+				map[string]interface{}{"position": k, "distance": d.Text(16), "previous": prev.Text(16)}, "non-decreasing distances")
+		}
+		prev = d
+	}
+	want := int64(total(v))
+	if count < want {
+		want = count
+	}
+	if count >= 0 && int64(len(out)) != want {
+		add("nearest:length", "NearestPeers returned fewer or more peers than min(count, table size)", len(out), want)
+	}
+}
+
+// runHistory executes one history on the implementation.
+func runHistory(h *history, idx int) hobs {
+	o := hobs{Idx: idx}
+	local := hx.UnHex(h.Local)
+	pool := make([][]byte, len(h.Pool))
+	ids := make([]common.PeerId, len(h.Pool))
+	index := map[common.PeerId]int{}
+	raw := map[common.PeerId][]byte{}
+	for i, s := range h.Pool {
+		pool[i] = hx.UnHex(s)
+		ids[i] = mkID(pool[i])
+		index[ids[i]] = i
+		raw[ids[i]] = pool[i]
+	}
+	rt := kb.NewRoutingTable(int(h.Size), mkID(local))
+	var added, removed []common.PeerId
+	rt.PeerAdded = func(p common.PeerId) { added = append(added, p) }
+	rt.PeerRemoved = func(p common.PeerId) { removed = append(removed, p) }
+	pents := func(ps []common.PeerIDAddressPair) []pent {
+		out := make([]pent, 0, len(ps))
+		for _, p := range ps {
+			i, ok := index[p.ID]
+			if !ok {
+				i = -1
+			}
+			out = append(out, pent{i, addrNum(p.Address)})
+		}
+		return out
+	}
+	for k, op := range h.Ops {
+		added, removed = added[:0], removed[:0]
+		before := len(rt.Buckets)
+		switch op.K {
+		case "u":
+			var err error
+			p, msg := hx.Recover(func() { err = rt.Update(ids[op.I], addrStr(op.A)) })
+			switch {
+			case p:
+				o.Res = append(o.Res, ores{K: "panic", Msg: msg})
+				o.Fails = append(o.Fails, ofail{"panic:update", "Update panicked", k, msg, "a result"})
+			case err == nil && len(added) == 1 && added[0] == ids[op.I]:
+				o.Res = append(o.Res, ores{K: "added"})
+			case err == nil && len(added) == 0:
+				o.Res = append(o.Res, ores{K: "moved"})
+			case err == kb.ErrPeerRejectedNoCapacity && len(added) == 0:
+				o.Res = append(o.Res, ores{K: "rejected"})
+			default:
+				o.Res = append(o.Res, ores{K: "other", Msg: fmt.Sprint(err, len(added))})
+			}
+			if d := len(rt.Buckets) - before; d > o.MaxDepth {
+				o.MaxDepth = d
+			}
+		case "r":
+			p, msg := hx.Recover(func() { rt.Remove(ids[op.I]) })
+			switch {
+			case p:
+				o.Res = append(o.Res, ores{K: "panic", Msg: msg})
+				o.Fails = append(o.Fails, ofail{"panic:remove", "Remove panicked", k, msg, "no panic"})
+			case len(removed) == 1 && removed[0] == ids[op.I]:
+				o.Res = append(o.Res, ores{K: "removed"})
+			case len(removed) == 0:
+				o.Res = append(o.Res, ores{K: "absent"})
+			default:
+				o.Res = append(o.Res, ores{K: "other", Msg: fmt.Sprint(len(removed))})
+			}
+		case "n":
+			var out []common.PeerIDAddressPair
+			p, msg := hx.Recover(func() { out = rt.NearestPeers(ids[op.I], int(op.C)) })
+			if p {
+				o.Res = append(o.Res, ores{K: "panic", Msg: msg})
+				if op.C >= 0 {
+					o.Fails = append(o.Fails, ofail{"panic:nearest", "NearestPeers panicked for a non-negative count", k, msg, "a result"})
+				}
+			} else {
+				o.Res = append(o.Res, ores{K: "near", Out: pents(out)})
+				checkNearest(out, pool[op.I], op.C, view(rt), raw, k, &o.Fails)
+			}
+		}
+		checkTable(h, view(rt), raw, local, k, &o.Fails)
+	}
+	for _, b := range view(rt).buckets {
+		o.Final = append(o.Final, pents(b))
+	}
+	o.NBuckets = len(rt.Buckets)
+	return o
+}
+
+func runIdCase(ic *idCase, idx int) idobs {
+	t, a, b := hx.UnHex(ic.T), hx.UnHex(ic.A), hx.UnHex(ic.B)
+	pt, pa, pb := mkID(t), mkID(a), mkID(b)
+	d := pt.Distance(pa)
+	o := idobs{IdIdx: idx, Cpl: common.CommonPrefixLen(pt, pa), Dist: hx.Hex(d[:]), Closer: pt.Closer(pa, pb)}
+	if want := refCPL(t, a); o.Cpl != want {
+		o.Fails = append(o.Fails, ofail{"id:cpl", "CommonPrefixLen is not the number of leading bits two ids share", 0, o.Cpl, want})
+	}
+	if want := refDist(t, a); new(big.Int).SetBytes(d[:]).Cmp(want) != 0 {
+		o.Fails = append(o.Fails, ofail{"id:distance", "Distance is not the XOR of the two ids", 0, o.Dist, want.Text(16)})
+	}
+	if want := refDist(t, a).Cmp(refDist(t, b)) < 0; o.Closer != want {
+		o.Fails = append(o.Fails, ofail{"id:closer", "Closer disagrees with the numeric order of the XOR distances", 0, o.Closer, want})
+	}
+	return o
+}
+
+// child: run everything in the job, one JSON line per result, a "begin" line before each history.
+func runChild(j *job) {
+	if j.MaxStack > 0 {
+		debug.SetMaxStack(j.MaxStack)
+	}
+	f, err := os.Create(j.ChildOut)
+	if err != nil {
+		panic(err)
+	}
+	defer f.Close()
+	w := bufio.NewWriter(f)
+	emit := func(v interface{}) {
+		b, _ := json.Marshal(v)
+		w.Write(b)
+		w.WriteByte('\n')
+		w.Flush()
+	}
+	for i := range j.Ids {
+		emit(runIdCase(&j.Ids[i], i))
+	}
+	for i := range j.Histories {
+		emit(hobs{Idx: i, Begin: true})
+		emit(runHistory(&j.Histories[i], i))
+	}
+	emit(map[string]bool{"done": true})
+}
+
+// ---------- parent ----------
+
+type childResult struct {
+	hist     map[int]*hobs
+	ids      map[int]*idobs
+	begun    int // index of the last history begun
+	done     bool
+	timedOut bool
+	exitErr  string
+	stderr   string
+}
+
+var childSeq int
+
+func spawn(c *hx.Ctx, j *job, timeout time.Duration) childResult {
+	childSeq++
+	dir := filepath.Join(c.OutDir, fmt.Sprintf("child%d", childSeq))
+	os.MkdirAll(dir, 0o755)
+	j.ChildOut = filepath.Join(dir, "obs.jsonl")
+	if j.MaxStack == 0 {
+		j.MaxStack = 64 << 20
+	}
+	b, _ := json.Marshal(map[string]interface{}{"input": j})
+	jobFile := filepath.Join(dir, "job.json")
+	if err := os.WriteFile(jobFile, b, 0o644); err != nil {
+		panic(err)
+	}
+	exe, err := os.Executable()
+	if err != nil {
+		panic(err)
+	}
+	ctx, cancel := context.WithTimeout(context.Background(), timeout)
+	defer cancel()
+	cmd := exec.CommandContext(ctx, exe, "run", "-id", "C37", "-seed", fmt.Sprint(c.Seed), "-tier", c.Tier,
+		"-out", dir, "-replay", jobFile, "-repo", c.Repo)
+	var stderr bytes.Buffer
+	cmd.Stderr = &stderr
+	cmd.Stdout = &stderr
+	runErr := cmd.Run()
+	r := childResult{hist: map[int]*hobs{}, ids: map[int]*idobs{}, begun: -1}
+	if ctx.Err() == context.DeadlineExceeded {
+		r.timedOut = true
+	}
+	if runErr != nil {
+		r.exitErr = runErr.Error()
+	}
+	s := stderr.String()
+	if len(s) > 600 {
+		s = s[:600]
+	}
+	r.stderr = s
+	f, err := os.Open(j.ChildOut)
+	if err != nil {
+		return r
+	}
+	defer f.Close()
+	sc := bufio.NewScanner(f)
+	sc.Buffer(make([]byte, 1<<20), 1<<28)
+	for sc.Scan() {
+		line := sc.Bytes()
+		switch {
+		case bytes.HasPrefix(line, []byte(`{"done"`)):
+			r.done = true
+		case bytes.HasPrefix(line, []byte(`{"ididx"`)):
+			var o idobs
+			if json.Unmarshal(line, &o) == nil {
+				r.ids[o.IdIdx] = &o
+			}
+		default:
+			var o hobs
+			if json.Unmarshal(line, &o) != nil {
+				continue
+			}
+			if o.Begin {
+				r.begun = o.Idx
+			} else {
+				oo := o
+				r.hist[o.Idx] = &oo
+			}
+		}
+	}
+	return r
+}
+
+// ---------- Coq printing ----------
+
+// an id is printed as the number its bytes denote (big-endian); Corr.C37.id_of turns it back
+func coqID(hexid string) string { return new(big.Int).SetBytes(hx.UnHex(hexid)).String() }
+
+func coqPool(pool []string) string {
+	var s []string
+	for _, p := range pool {
+		s = append(s, coqID(p))
+	}
+	return hx.CoqList(s)
+}
+
+func coqOps(ops []hop) string {
+	var s []string
+	for _, o := range ops {
+		switch o.K {
+		case "u":
+			s = append(s, fmt.Sprintf("IUpdate %d %d", o.I, o.A))
+		case "r":
+			s = append(s, fmt.Sprintf("IRemove %d", o.I))
+		default:
+			s = append(s, fmt.Sprintf("INearest %d %s", o.I, hx.CoqZ(o.C)))
+		}
+	}
+	return hx.CoqList(s)
+}
+
+func coqPents(ps []pent) string {
+	var s []string
+	for _, p := range ps {
+		if p.I < 0 || p.A > 15 {
+			s = append(s, "999999999") // a peer outside the pool / an unknown address: matches nothing
+			continue
+		}
+		s = append(s, fmt.Sprint(16*uint64(p.I)+p.A))
+	}
+	return hx.CoqList(s)
+}
+
+func coqRes(rs []ores) (string, bool) {
+	var s []string
+	for _, r := range rs {
+		switch r.K {
+		case "moved":
+			s = append(s, "IRUpdate UMoved")
+		case "added":
+			s = append(s, "IRUpdate UAdded")
+		case "rejected":
+			s = append(s, "IRUpdate URejected")
+		case "removed":
+			s = append(s, "IRRemove true")
+		case "absent":
+			s = append(s, "IRRemove false")
+		case "near":
+			s = append(s, "IRNearest "+coqPents(r.Out))
+		case "panic":
+			s = append(s, "IRPanic")
+		default:
+			return "", false
+		}
+	}
+	return hx.CoqList(s), true
+}
+
+// ---------- generators ----------
+
+// idWithCPL returns an id whose common prefix with local is exactly k bits (k == 160: local).
+func idWithCPL(c *hx.Ctx, local []byte, k int) []byte {
+	id := c.Bytes(idLen)
+	if k >= 8*idLen {
+		return append([]byte{}, local...)
+	}
+	nb, left := k/8, uint(k%8)
+	copy(id[:nb], local[:nb])
+	mask := byte(0xff) << (8 - left) // the `left` high bits
+	id[nb] = (local[nb] & mask) | (id[nb] &^ mask)
+	bit := byte(1) << (7 - left)
+	id[nb] = (id[nb] &^ bit) | (^local[nb] & bit)
+	return id
+}
+
+func pickCPL(c *hx.Ctx, style string) int {
+	switch style {
+	case "close":
+		switch c.Intn(6) {
+		case 0:
+			return []int{0, 1, 7, 8, 9, 15, 16, 17, 63, 64, 65, 151, 152, 153, 158, 159, 160}[c.Intn(17)]
+		case 1:
+			return 150 + c.Intn(11)
+		case 2:
+			return c.Intn(12)
+		default:
+			return c.Intn(161)
+		}
+	case "deep":
+		return 100 + c.Intn(61)
+	case "shallow":
+		return c.Intn(6)
+	}
+	return c.Intn(161)
+}
+
+func genHistory(c *hx.Ctx, kind string) history {
+	local := c.Bytes(idLen)
+	if c.Intn(8) == 0 { // boundary local ids
+		for i := range local {
+			local[i] = []byte{0x00, 0xff}[c.Intn(2)]
+		}
+	}
+	sizes := []int64{1, 1, 2, 2, 3, 5, 20}
+	size := sizes[c.Intn(len(sizes))]
+	np := 6 + c.Intn(30)
+	nops := 10 + c.Intn(70)
+	style := kind
+	switch kind {
+	case "random":
+	case "churn":
+		np = 4 + c.Intn(8)
+		style = "close"
+	case "deep":
+		size = []int64{1, 2, 3}[c.Intn(3)]
+	case "full": // many peers of one prefix length, bucket size 20
+		size = 20
+		np = 30 + c.Intn(40)
+		nops = 60 + c.Intn(80)
+		style = "shallow"
+	}
+	seen := map[string]bool{}
+	var pool []string
+	addID := func(b []byte) {
+		s := hx.Hex(b)
+		if !seen[s] {
+			seen[s] = true
+			pool = append(pool, s)
+		}
+	}
+	for len(pool) < np {
+		if kind == "random" {
+			addID(c.Bytes(idLen))
+		} else {
+			addID(idWithCPL(c, local, pickCPL(c, style)))
+		}
+	}
+	if c.Intn(3) == 0 {
+		addID(local) // the local id itself is a legal argument of Update
+	}
+	npeers := len(pool)
+	// query-only targets: random, near a pool id, the local id
+	for k := 0; k < 3; k++ {
+		switch c.Intn(3) {
+		case 0:
+			addID(c.Bytes(idLen))
+		case 1:
+			b := hx.UnHex(pool[c.Intn(npeers)])
+			b[idLen-1-c.Intn(3)] ^= byte(1 << uint(c.Intn(8)))
+			addID(b)
+		default:
+			addID(local)
+		}
+	}
+	counts := []int64{0, 1, 1, 2, 3, 5, size, size + 1, 20, 50}
+	h := history{Kind: kind, Size: size, Local: hx.Hex(local), Pool: pool}
+	for k := 0; k < nops; k++ {
+		r := c.Intn(100)
+		switch {
+		case r < 62 || (k < npeers/2 && r < 85):
+			h.Ops = append(h.Ops, hop{K: "u", I: c.Intn(npeers), A: uint64(1 + c.Intn(9))})
+		case r < 80:
+			h.Ops = append(h.Ops, hop{K: "r", I: c.Intn(npeers)})
+		default:
+			cnt := counts[c.Intn(len(counts))]
+			if c.Intn(40) == 0 {
+				// negative counts panic in `pds.peers[:count]`.  Kept above -size: with
+				// count+size < 0 the earlier make() panics while tabLock is read-locked (no defer),
+				// and every later Update/Remove of the history would block forever.
+				cnt = -1 - int64(c.Intn(int(size)))
+			}
+			h.Ops = append(h.Ops, hop{K: "n", I: c.Intn(len(pool)), C: cnt})
+		}
+	}
+	h.Ops = append(h.Ops, hop{K: "n", I: c.Intn(len(pool)), C: int64(1 + c.Intn(25))})
+	return h
+}
+
+func genIdCase(c *hx.Ctx) idCase {
+	t := c.Bytes(idLen)
+	a := idWithCPL(c, t, pickCPL(c, "close"))
+	var b []byte
+	switch c.Intn(3) {
+	case 0:
+		b = c.Bytes(idLen)
+	case 1:
+		b = idWithCPL(c, t, refCPL(a, t)) // same prefix length as a
+	default:
+		b = append([]byte{}, a...)
+		b[c.Intn(idLen)] ^= byte(1 << uint(c.Intn(8)))
+	}
+	return idCase{hx.Hex(t), hx.Hex(a), hx.Hex(b)}
+}
+
+// probes executed on every run
+func probeSize1Local() history {
+	local := make([]byte, idLen)
+	for i := range local {
+		local[i] = byte(i * 7)
+	}
+	far := append([]byte{}, local...)
+	far[0] ^= 0x80
+	near := append([]byte{}, local...)
+	near[idLen-1] ^= 1
+	return history{Kind: "probe:size1-local-id", Size: 1, Local: hx.Hex(local),
+		Pool: []string{hx.Hex(local), hx.Hex(far), hx.Hex(near)},
+		Ops:  []hop{{K: "u", I: 0, A: 1}, {K: "u", I: 1, A: 2}, {K: "u", I: 2, A: 3}, {K: "n", I: 2, C: 5}, {K: "r", I: 0}, {K: "u", I: 0, A: 4}}}
+}
+
+func probeNonPositive(size int64) history {
+	h := probeSize1Local()
+	h.Kind = fmt.Sprintf("probe:size%d", size)
+	h.Size = size
+	h.Ops = h.Ops[:1]
+	return h
+}
+
+// ---------- recording ----------
+
+func bucketOf(n int) string {
+	for _, b := range []int{1, 2, 4, 8, 16, 32, 64, 162} {
+		if n <= b {
+			return fmt.Sprintf("<=%d", b)
+		}
+	}
+	return ">162"
+}
+
+func record(c *hx.Ctx, h *history, o *hobs) {
+	c.Eval()
+	c.Count("history:" + h.Kind)
+	c.Count(fmt.Sprintf("size:%d", h.Size))
+	c.Count("buckets:" + bucketOf(o.NBuckets))
+	c.Count("unfold-rounds-max:" + bucketOf(o.MaxDepth))
+	for _, r := range o.Res {
+		c.Count("result:" + r.K)
+	}
+	for _, f := range o.Fails {
+		c.Fail(f.Class, f.Clause, h, map[string]interface{}{"after_call": f.At, "got": f.Got}, f.Want)
+	}
+	if o.NBuckets >= 2 {
+		b, _ := json.Marshal(h)
+		c.Nontrivial(string(b))
+	}
+	c.Sample(map[string]interface{}{"kind": h.Kind, "size": h.Size, "calls": len(h.Ops), "peers": len(h.Pool), "buckets": o.NBuckets, "most_buckets_created_by_one_update": o.MaxDepth})
+	res, ok := coqRes(o.Res)
+	if !ok {
+		c.Fail("callback-mismatch", "Update/Remove result and the PeerAdded/PeerRemoved callbacks do not fit together", h, o.Res, "added<->PeerAdded(id), removed<->PeerRemoved(id)")
+		return
+	}
+	var fin []string
+	for _, b := range o.Final {
+		fin = append(fin, coqPents(b))
+	}
+	c.Case(fmt.Sprintf("CHist %s %s %s %s %s %s", hx.CoqZ(h.Size), coqID(h.Local), coqPool(h.Pool), coqOps(h.Ops), res, hx.CoqList(fin)), h)
+}
+
+func runBatch(c *hx.Ctx, hs []history, ids []idCase, timeout time.Duration) {
+	r := spawn(c, &job{Histories: hs, Ids: ids}, timeout)
+	for i := range ids {
+		o, ok := r.ids[i]
+		if !ok {
+			continue
+		}
+		c.Eval()
+		c.Count("idcase")
+		for _, f := range o.Fails {
+			c.Fail(f.Class, f.Clause, ids[i], f.Got, f.Want)
+		}
+		c.Nontrivial("id" + ids[i].T + ids[i].A + ids[i].B)
+		c.Case(fmt.Sprintf("CId %s %s %s %d %s %s", coqID(ids[i].T), coqID(ids[i].A), coqID(ids[i].B),
+			o.Cpl, coqID(o.Dist), hx.CoqBool(o.Closer)), ids[i])
+	}
+	for i := range hs {
+		if o, ok := r.hist[i]; ok {
+			record(c, &hs[i], o)
+		}
+	}
+	if !r.done {
+		// the child died or was killed: the history it had begun is the failing input
+		if r.begun >= 0 && r.hist[r.begun] == nil {
+			why := "the process crashed"
+			if r.timedOut {
+				why = "no result within the time limit"
+			}
+			if strings.Contains(r.stderr, "stack overflow") || strings.Contains(r.stderr, "stack exceeds") {
+				why = "unbounded recursion (stack overflow)"
+			}
+			c.Fail("no-return", "a call of the history did not return: "+why, hs[r.begun],
+				map[string]interface{}{"exit": r.exitErr, "timed_out": r.timedOut, "output": r.stderr}, "every call returns")
+			c.Note(fmt.Sprintf("child stopped at history %d of %d; the remaining ones were not run", r.begun, len(hs)))
+		} else {
+			c.Fail("child-failure", "the child process running the implementation ended abnormally", nil,
+				map[string]interface{}{"exit": r.exitErr, "timed_out": r.timedOut, "output": r.stderr}, "normal exit")
+		}
+	}
+}
+
+// probeReturns runs a history in its own child and records whether every call returned.
+func probeReturns(c *hx.Ctx, h history, timeout time.Duration) bool {
+	r := spawn(c, &job{Histories: []history{h}, MaxStack: 32 << 20}, timeout)
+	returned := r.done && r.hist[0] != nil
+	c.Eval()
+	outcome := "returned"
+	if !returned {
+		outcome = "did-not-return"
+		if strings.Contains(r.stderr, "stack overflow") || strings.Contains(r.stderr, "stack exceeds") {
+			outcome = "stack-overflow"
+		} else if r.timedOut {
+			outcome = "timeout"
+		}
+	}
+	c.Count(h.Kind + ":" + outcome)
+	c.Note(fmt.Sprintf("%s (bucket size %d, one Update): %s on the implementation", h.Kind, h.Size, outcome))
+	c.Case(fmt.Sprintf("CReturns %s %s %s %s %s", hx.CoqZ(h.Size), coqID(h.Local), coqPool(h.Pool), coqOps(h.Ops), hx.CoqBool(returned)), h)
+	return returned
+}
+
+func Run(c *hx.Ctx) {
+	c.CoqModule("Corr.C37")
+	var j job
+	if c.ReplayInput(&j) {
+		if j.ChildOut != "" {
+			runChild(&j)
+			return
+		}
+		// a replay file of ./check: one history or one id case
+		if j.history.Local != "" {
+			runBatch(c, []history{j.history}, nil, 60*time.Second)
+		} else if j.idCase.T != "" {
+			runBatch(c, nil, []idCase{j.idCase}, 60*time.Second)
+		}
+		return
+	}
+	var hs []history
+	for _, raw := range c.CorpusInputs() {
+		var h history
+		if json.Unmarshal(raw, &h) == nil && h.Local != "" {
+			hs = append(hs, h)
+		}
+	}
+	// deterministic probes: the candidate finding F14 (bucket size 1 with the local id in the
+	// table) and the configuration outside the theorem's hypothesis (bucket size <= 0).
+	hs = append(hs, probeSize1Local())
+	probeReturns(c, probeNonPositive(0), 30*time.Second)
+	probeReturns(c, probeNonPositive(-1), 30*time.Second)
+
+	n := c.N(420, 5000)
+	kinds := []string{"random", "close", "close", "deep", "churn", "full", "close"}
+	for i := 0; i < n; i++ {
+		hs = append(hs, genHistory(c, kinds[i%len(kinds)]))
+	}
+	var ids []idCase
+	for i := 0; i < c.N(300, 3000); i++ {
+		ids = append(ids, genIdCase(c))
+	}
+	// batches, so that one non-returning history does not hide the others
+	const batch = 150
+	first := true
+	for len(hs) > 0 {
+		k := batch
+		if k > len(hs) {
+			k = len(hs)
+		}
+		if first {
+			runBatch(c, hs[:k], ids, 90*time.Second)
+			first = false
+		} else {
+			runBatch(c, hs[:k], nil, 90*time.Second)
+		}
+		hs = hs[k:]
+	}
+}
